@@ -10,6 +10,7 @@ import (
 	"os"
 	"path/filepath"
 	"strings"
+	"sync"
 	"time"
 
 	"github.com/bmeg/grip/config"
@@ -51,6 +52,9 @@ type GripServer struct {
 	sources  map[string]gripper.GRIPSourceClient
 	baseDir  string
 	jStorage jobstorage.JobStorage
+	// mapLock guards graphMap, dbs (extended by updateGraphMap) and schemas:
+	// every gRPC handler reads them, edits and schema uploads replace them
+	mapLock sync.RWMutex
 }
 
 // NewGripServer initializes a GRPC server to connect to the graph store
@@ -141,6 +145,8 @@ func StartDriver(d config.DriverConfig, sources map[string]gripper.GRIPSourceCli
 }
 
 func (server *GripServer) getGraphDB(graph string) (gdbi.GraphDB, error) {
+	server.mapLock.RLock()
+	defer server.mapLock.RUnlock()
 	if driverName, ok := server.graphMap[graph]; ok {
 		if gdb, ok := server.dbs[driverName]; ok {
 			return gdb, nil
@@ -408,7 +414,9 @@ func (server *GripServer) Serve(pctx context.Context) error {
 				log.WithFields(log.Fields{"graph": graph}).Debug("Loading existing schema into cache")
 				schema, err := server.getGraph(graph)
 				if err == nil {
+					server.mapLock.Lock()
 					server.schemas[strings.TrimSuffix(graph, schemaSuffix)] = schema
+					server.mapLock.Unlock()
 				}
 			} else if isMapping(graph) {
 				log.WithFields(log.Fields{"graph": graph}).Debug("Loading existing mapping into cache")
